@@ -639,8 +639,18 @@ def eval_family(case: dict, members: list[str], xblob: str | None,
     # observations that must be made before anything hashes the unpickled objects
     stale = [stale_hash_caches(o) if u else [] for o, u in zip(objs, unpickled)]
     n = len(objs)
-    eq = [[bool(objs[i] == objs[j]) for j in range(n)] for i in range(n)]
-    ne = [[bool(objs[i] != objs[j]) for j in range(n)] for i in range(n)]
+    raised: list[list[Any]] = []      # == / != that RAISED: [i, j, operator, exception]
+
+    def cmp(i: int, j: int, neq: bool) -> bool:
+        try:
+            return bool(objs[i] != objs[j]) if neq else bool(objs[i] == objs[j])
+        except Exception as exn:       # noqa: BLE001
+            if len(raised) < 20:
+                raised.append([i, j, "!=" if neq else "==",
+                               f"{type(exn).__name__}: {exn}"[:160]])
+            return neq
+    eq = [[cmp(i, j, False) for j in range(n)] for i in range(n)]
+    ne = [[cmp(i, j, True) for j in range(n)] for i in range(n)]
     hashes = [safe_hash(o) for o in objs]
     inset: list[list[bool]] = []
     indict: list[list[bool]] = []
@@ -651,9 +661,19 @@ def eval_family(case: dict, members: list[str], xblob: str | None,
             continue
         s = {objs[i]}
         d = {objs[i]: 1}
-        inset.append([hashes[j] != "unhashable" and objs[j] in s for j in range(n)])
-        indict.append([hashes[j] != "unhashable" and d.get(objs[j]) == 1
-                       for j in range(n)])
+
+        def member(j: int, use_dict: bool, i: int = i, s: Any = s, d: Any = d) -> bool:
+            if hashes[j] == "unhashable":
+                return False
+            try:
+                return d.get(objs[j]) == 1 if use_dict else objs[j] in s
+            except Exception as exn:       # noqa: BLE001
+                if len(raised) < 20:
+                    raised.append([i, j, "in dict" if use_dict else "in set",
+                                   f"{type(exn).__name__}: {exn}"[:160]])
+                return False
+        inset.append([member(j, False) for j in range(n)])
+        indict.append([member(j, True) for j in range(n)])
     ex = FamilyExporter()
     roots = [ex.node(o) for o in objs]
     import hashlib
@@ -666,6 +686,7 @@ def eval_family(case: dict, members: list[str], xblob: str | None,
         "inset": inset, "indict": indict, "stale": stale,
         "hash_base_first": h_base,
         "base_cached": "_hash_value" in getattr(base, "__dict__", {}),
+        "raised": raised,
     }
     if want_keys:
         keys = [keyof(o) for o in objs]
